@@ -265,9 +265,21 @@ impl SizeMap {
             let mut sets: Vec<Vec<usize>> = Vec::new();
             for track in fixed_tracks(s) {
                 let t: Vec<usize> = track.iter().map(|p| *p as usize).collect();
-                sets.push(t.iter().copied().filter(|i| self.template[*i] == Some(false)).collect());
-                sets.push(t.iter().copied().filter(|i| self.template[*i] == Some(true)).collect());
-                sets.push(t);
+                // the whole track and the track without its end modules (which it shares with the crossing tracks)
+                let inner: Vec<usize> = if t.len() > 2 { t[1..t.len() - 1].to_vec() } else { Vec::new() };
+                for part in [&t, &inner] {
+                    sets.push(part.iter().copied().filter(|i| self.template[*i] == Some(false)).collect());
+                    sets.push(part.iter().copied().filter(|i| self.template[*i] == Some(true)).collect());
+                    sets.push(part.to_vec());
+                }
+            }
+            // every non-empty subset of the fixed 2x2 corner (where the size has one)
+            if s.has_fixed_corner() {
+                let (h, w) = (s.rows, s.cols);
+                let corner = [(h - 3) * w + (w - 3), (h - 3) * w + (w - 2), (h - 2) * w + (w - 3), (h - 2) * w + (w - 2)];
+                for mask in 1u32..16 {
+                    sets.push((0..4).filter(|b| mask & (1 << b) != 0).map(|b| corner[b]).collect());
+                }
             }
             sets.push((0..self.template.len()).filter(|i| self.template[*i] == Some(false)).collect());
             sets.push((0..self.template.len()).filter(|i| self.template[*i] == Some(true)).collect());
@@ -280,10 +292,20 @@ impl SizeMap {
                     arr2[*i] = third;
                 }
                 if let Ok((m, _)) = MatrixMap::<Tag>::try_from_bits(&arr2, self.width) {
-                    if m.bitmap().bits() != &arr2[..] {
+                    let bm = m.bitmap();
+                    let out = bm.bits();
+                    // accepted: re-rendering must reproduce the array, AND what is rendered from the parsed content
+                    // must show the fixed pattern the standard prescribes (the forward clause, for this content)
+                    let fixed_ok = out.len() == self.template.len()
+                        && self.template.iter().zip(out.iter()).all(|(t, o)| match t {
+                            Some(true) => *o == Tag::HIGH,
+                            Some(false) => *o == Tag::LOW,
+                            None => true,
+                        });
+                    if out != &arr2[..] || !fixed_ok {
                         let i = set[0];
                         return Some(format!(
-                            "{}: an array in which {} fixed modules (the first at row {} col {}) hold a value that is neither LOW nor HIGH was accepted, and re-rendering does not reproduce it",
+                            "{}: an array in which {} fixed modules (the first at row {} col {}) hold a value that is neither LOW nor HIGH was accepted, and re-rendering does not reproduce it or does not show the standard's fixed pattern",
                             s.name,
                             set.len(),
                             i / self.width,
